@@ -576,11 +576,14 @@ class Frame:
             tv = self.ev(s.test)
             if not self.I.truth(tv):
                 break
+            total = locals().get("total", 0) + 1
             if is_sym(tv):
                 n += 1
                 self.I.ctx.iters = max(self.I.ctx.iters, n)
                 if n > self.I.ctx.loop_bound:
                     raise LoopBound()
+            elif total > getattr(self.I.ctx, "concrete_loop_bound", 1000000):
+                raise LoopBound()
             try:
                 self.exec_block(s.body)
             except _Break:
@@ -606,7 +609,11 @@ class Frame:
         return it
 
     def s_For(self, s):
-        seq = self.iterate(self.ev(s.iter))
+        it = self.ev(s.iter)
+        hook = getattr(self.I, "for_hook", None)
+        if hook is not None and hook(self, s, it):
+            return
+        seq = self.iterate(it)
         broke = False
         for x in (list(seq) if isinstance(seq, (list, dict, set)) or hasattr(seq, "keys") else seq):
             self.store(s.target, x)
@@ -629,6 +636,15 @@ class Frame:
             else:
                 self.env[t.id] = v
         elif isinstance(t, (ast.Tuple, ast.List)):
+            if isinstance(v, SOpaque):
+                # a sequence of unknown length (e.g. text.split(...)): unpacking succeeds or raises ValueError
+                ok = SBool(z3.Bool(V.fresh_name("unpack-ok")))
+                if not self.I.truth(ok):
+                    raise ValueError("not enough / too many values to unpack (expected %d)" % len(t.elts))
+                vs = [SOpaque("item-text" if v.tag.endswith("text-list") else "item", v, i) for i in range(len(t.elts))]
+                for tt, vv in zip(t.elts, vs):
+                    self.store(tt, vv)
+                return
             vs = list(self.iterate(v))
             if len(vs) != len(t.elts):
                 raise ValueError("not enough / too many values to unpack (expected %d, got %d)" % (len(t.elts), len(vs)))
@@ -690,7 +706,7 @@ class Frame:
             return
         if isinstance(obj, (SBuf, SZeros)):
             raise Unsupported("store into a symbolic-length buffer")
-        if is_sym(idx) and isinstance(obj, (dict, list)):
+        if is_sym(idx) and isinstance(obj, (dict, list)) and not (isinstance(obj, dict) and isinstance(idx, SOpaque)):
             raise Unsupported("store with symbolic key")
         obj[idx] = v
 
@@ -744,7 +760,10 @@ class Frame:
 
     def e_Name(self, e):
         if e.id in self.env:
-            return self.env[e.id]
+            v = self.env[e.id]
+            if type(v).__name__ == "_Poison":
+                raise Unsupported("loop-carried variable %s is read before it is assigned in the loop body" % e.id)
+            return v
         if e.id in self.glob:
             return self.glob[e.id]
         try:
@@ -1053,6 +1072,12 @@ class Frame:
         stop = _imin(hi_e, n)
         ln = z3.simplify(_imax0(stop - start))
         nbound = buf.n.hi if isinstance(buf.n, SInt) else buf.n
+        lo_r = ctx.resolve(lo) if lo is not None else 0
+        hi_r = ctx.resolve(hi) if hi is not None else None
+        if isinstance(lo_r, int) and isinstance(hi_r, int) and 0 <= lo_r <= hi_r:
+            nbound = hi_r - lo_r if nbound is None else min(nbound, hi_r - lo_r)
+        elif isinstance(lo_r, int) and lo_r >= 0 and nbound is not None:
+            nbound = max(0, nbound - lo_r)
         ln_c = ctx.define("len", ln)
         off_c = ctx.define("off", off + start)
         nn = ln_c.as_long() if z3.is_int_value(ln_c) else SInt(ln_c, 0, nbound)
